@@ -27,6 +27,7 @@ from .vloop import TICKS_PER_S
 
 UNIT = TICKS_PER_S >> 10
 ALT_PORT = 6001
+DIAG_LEN = 8   # length of the diagnostic text scripted handlers put into renderable errors
 
 
 def peer_sockaddr(r, port=None):
@@ -461,7 +462,10 @@ def run(sched):
                 if lens:
                     self.count = getattr(self, "count", 0) + 1
                     plan = dict(self.plan, len=lens[(self.count - 1) % len(lens)])
-                ev("release", h=self.n, inv=inv, x=outcome, plen=plan.get("len", 8) if plan.get("canon") else 0, loc=self.mark)
+                renderable = outcome.startswith("raise:") and not outcome.startswith(("raise:py:", "raise:lib:"))
+                ev("release", h=self.n, inv=inv, x=outcome, loc=self.mark,
+                   plen=DIAG_LEN if renderable else (plan.get("len", 8) if plan.get("canon") else 0),
+                   cid=(inv & 0xFF) if renderable else -1)
                 return produce(outcome, self.n, inv, plan)
 
         def body_fields(request, r, n):
@@ -493,10 +497,19 @@ def run(sched):
                 return Message(code=Code(int(outcome[5:])), payload=body)
             if outcome == "noresponse":
                 return Message(code=Code.CONTENT, payload=body, no_response=26)
+            if outcome.startswith("raise:lib:"):
+                # library exceptions that are NOT renderable, and OS-level ones: a bare 5.00 like any other exception
+                name = outcome[10:]
+                if name == "ResponseWrappingError":
+                    raise error.ResponseWrappingError(Message(code=Code.UNAUTHORIZED, payload=SECRET.encode()))
+                if name in ("OSError", "TimeoutError", "ConnectionResetError"):
+                    raise {"OSError": OSError, "TimeoutError": TimeoutError, "ConnectionResetError": ConnectionResetError}[name](SECRET)
+                raise getattr(error, name)(SECRET)
             if outcome.startswith("raise:py:"):
                 raise {"KeyError": KeyError, "AssertionError": AssertionError, "ValueError": ValueError, "RuntimeError": RuntimeError, "Exception": Exception}[outcome[9:]](SECRET)
             if outcome.startswith("raise:"):
-                raise getattr(error, outcome[6:])()
+                # with an invocation-specific diagnostic text (a canonical string: the trace shows whose it is)
+                raise getattr(error, outcome[6:])(canon(inv & 0xFF, 0, DIAG_LEN).decode())
             if outcome == "unencodable:payload":
                 # passes Resource.render and the block-wise helpers, but cannot be serialised
                 return Message(code=Code.CONTENT, payload=SECRET)
@@ -512,10 +525,14 @@ def run(sched):
                 return SECRET.encode()
             if outcome == "ret:int":
                 return 42
-            if outcome == "badrender":
+            if outcome.startswith("badrender"):
 
                 class Bad(error.RenderableError):
                     def to_message(self):
+                        if outcome == "badrender:none":
+                            return None
+                        if outcome == "badrender:nonmessage":
+                            return SECRET
                         raise RuntimeError(SECRET)
 
                 raise Bad()
